@@ -31,6 +31,7 @@ const (
 	vpFileFlush
 	vpFileClose
 	vpGCRecheck
+	vpFreeSend
 )
 
 func verifYield(point int, obj unsafe.Pointer) {}
